@@ -42,6 +42,29 @@ FullOK(col, top, bot) ==
        /\ \A k \in 1..3 : /\ \E p \in S : col[k] * p[4] - p[k] * 255 < p[4]     \* not above the largest
                           /\ \E p \in S : p[k] * 255 - col[k] * p[4] < p[4]     \* not below the smallest
 
+(* A block image scaled down to ow x oh cells (whatever the resampling, as long as an output  *)
+(* pixel is computed from the source pixels it covers and their immediate neighbours): a cell *)
+(* whose footprint, widened by one source pixel on every side, lies in a region that is       *)
+(* sufficiently transparent throughout must show the default colour in both halves; one whose *)
+(* widened footprint is a single opaque colour must show that colour in both halves; every    *)
+(* other cell is left open.  The output is 2*oh or 2*oh - 1 pixel rows high: the footprint is *)
+(* taken wide enough for both.                                                                *)
+Foot(px, iw, ih, ow, oh, x, y) ==
+  LET Max0(a) == IF a < 0 THEN 0 ELSE a
+      Min(a, b) == IF a < b THEN a ELSE b
+      x0 == Max0((x * iw) \div ow - 1)
+      x1 == Min(iw - 1, ((x + 1) * iw + ow - 1) \div ow)
+      y0 == Max0((2 * y * ih) \div (2 * oh) - 1)
+      y1 == Min(ih - 1, ((2 * y + 2) * ih + (2 * oh - 1) - 1) \div (IF oh = 1 THEN 1 ELSE 2 * oh - 1))
+  IN {px[yy * iw + xx + 1] : xx \in x0..x1, yy \in y0..y1}
+Opaque(p) == p # NoPixel /\ p[4] = 65535
+(* last: the cell is in the last cell row, whose lower half lies beyond an image of odd pixel height *)
+ScaledCellOK(topCol, botCol, F, last) ==
+  IF \A p \in F : Transparent(p) THEN topCol = <<>> /\ botCol = <<>>
+  ELSE IF \E p \in F : Opaque(p) /\ F = {p} THEN
+       LET p == CHOOSE q \in F : TRUE IN Shows(topCol, p) /\ (Shows(botCol, p) \/ (last /\ botCol = <<>>))
+  ELSE TRUE
+
 (* px: the image's pixels, row-major, iw wide, ih high; cell (x, y). *)
 TopOf(px, iw, ih, x, y) == px[(2 * y) * iw + x + 1]
 BotOf(px, iw, ih, x, y) == IF 2 * y + 1 < ih THEN px[(2 * y + 1) * iw + x + 1] ELSE NoPixel
